@@ -260,9 +260,12 @@ Definition rv_ok (g : graph) (ar : list entry) (v : rv) : bool :=
 
 Definition values_ok (g : graph) (ar : list entry) (vs : list rv) : bool := forallb (rv_ok g ar) vs.
 
-(* ---------------------------------------------------------------- step level: what a step's action lists as result
-   A step value says: the (non-scattered) workflow step whose HowToStep entity is [sv_step] produced [sv_val]. *)
-Record sv := SV { sv_step : string; sv_val : value }.
+(* ---------------------------------------------------------------- step level: what the actions of a step list
+   A step value says: the workflow step whose HowToStep entity is [sv_step] ran the jobs [sv_jobs] (one for a plain
+   step, one per element for a scattered step).  A job consumed [j_ins] (all of its inputs when [j_closed]) and,
+   when known, produced [j_out]. *)
+Record job := Job { j_ins : list value; j_closed : bool; j_out : option value }.
+Record sv := SV { sv_step : string; sv_jobs : list job }.
 
 (* c is the ControlAction orchestrating step s *)
 Definition is_control (c : json) (s : string) : bool :=
@@ -272,20 +275,37 @@ Definition is_control (c : json) (s : string) : bool :=
   | None => false
   end.
 
-(* action a lists at least one result and every result it lists carries the value *)
-Definition results_ok (g : graph) (ar : list entry) (a : json) (v : value) : bool :=
-  match prop_refs a "result" with
-  | [] => false
-  | rs => forallb (fun x => existsb (fun e => id_is e x &&& val_ok g ar e x v) g) rs
+(* the entity called x carries the value v *)
+Definition carries (g : graph) (ar : list entry) (x : string) (v : value) : bool :=
+  existsb (fun e => id_is e x &&& val_ok g ar e x v) g.
+
+(* action a is the record of job j: its object lists a carrier of every consumed value (and nothing else when all
+   inputs are known), its result lists at least one entity and only carriers of the produced value *)
+Definition job_ok (g : graph) (ar : list entry) (a : json) (j : job) : bool :=
+  forallb (fun v => existsb (fun x => carries g ar x v) (prop_refs a "object")) (j_ins j) &&&
+  ((if j_closed j
+    then forallb (fun x => existsb (fun v => carries g ar x v) (j_ins j)) (prop_refs a "object")
+    else true) &&&
+   match j_out j with
+   | None => true
+   | Some v => match prop_refs a "result" with
+               | [] => false
+               | rs => forallb (fun x => carries g ar x v) rs
+               end
+   end).
+
+(* the actions a ControlAction of step s lists under object *)
+Definition is_step_action (g : graph) (s : string) (a : json) : bool :=
+  match ent_id a with
+  | Some i => existsb (fun c => is_control c s &&& str_in i (prop_refs c "object")) g
+  | None => false
   end.
 
+Definition step_actions (g : graph) (s : string) : list json := filter (is_step_action g s) g.
+
 Definition sv_ok (g : graph) (ar : list entry) (v : sv) : bool :=
-  existsb (fun c => is_control c (sv_step v)) g &&&
-  forallb (fun c =>
-    if is_control c (sv_step v)
-    then forallb (fun aid => forallb (fun a => if id_is a aid then results_ok g ar a (sv_val v) else true) g)
-                 (prop_refs c "object")
-    else true) g.
+  forallb (fun a => existsb (job_ok g ar a) (sv_jobs v)) (step_actions g (sv_step v)) &&&
+  forallb (fun j => existsb (fun a => job_ok g ar a j) (step_actions g (sv_step v))) (sv_jobs v).
 
 Definition steps_ok (g : graph) (ar : list entry) (ss : list sv) : bool := forallb (sv_ok g ar) ss.
 
